@@ -209,6 +209,8 @@ def main():
         except Exception:
             text = ""
         k = matches_known(v, text, findings)
+        if not v.get("confirmed", False):
+            continue  # not reproduced in a fresh process: reported by the runner as a harness error, never as a violation
         if k:
             known_hits.append((k, v))
         else:
